@@ -20,6 +20,7 @@ ASSUMPTIONS = [
     "timestamps taken from time.time() by the Beast/raw framers are not compared; Skysense timestamps are",
     "streams are well-formed and start at a frame boundary; the last frame is followed by the start of a next frame",
     "the RSSI value of read_beast_buffer_rssi_piaware is not judged, only that the frame is delivered (no exception)",
+    "NetSource progress: at most 4 ADS-B messages may be pending (the code forwards as soon as 2 are buffered); Comm-B messages may wait for the next ADS-B batch",
 ]
 
 pms = loader.load("P")
@@ -259,6 +260,8 @@ def ns_run(seq, batching, cls="net"):
             return "netsource:adsb_lost_duplicated_or_reordered"
         if got_b != handed_b:
             return "netsource:commb_lost_duplicated_or_reordered"
+        if len(src.local_buffer_adsb_msg) >= 5:
+            return "netsource:messages_never_forwarded"      # lenient progress bound (the code forwards at 2)
         for d in pipe.sent:
             if len(d["adsb_msg"]) != len(d["adsb_ts"]) or len(d["commb_msg"]) != len(d["commb_ts"]):
                 return "netsource:timestamps_not_paired"
